@@ -34,6 +34,14 @@ def specs(tier):
                                             "style": (("def", "lambda", "adef")[idx % 3] if is_async else ("def", "lambda")[idx % 2]),
                                             "err": ("default", "cls", "fac", "inst")[(idx // 2) % 4],
                                             "cap_alias": bool((idx // 8) % 2), "sibling_contract": sibling, "err_base": idx % 5 == 3})
+                                if post and not sibling and not inv:
+                                    # a foreign functools.wraps decorator on top / in the middle of the leaf's stack (the meta-class must still
+                                    # hand the inherited postconditions to the real checker)
+                                    for foreign in (("top", "mid") if base else ("top",)):
+                                        out.append(dict(out[-1], foreign=foreign))
+                                    if snap:
+                                        # OLD is read by the error factories only, no condition takes it
+                                        out.append(dict(out[-1 - (2 if base else 1)], err="fac", post_old="none"))
     return out
 
 
